@@ -34,7 +34,7 @@ func genC02(t *rapid.T, tier string) C02Case {
 	}
 	w := core.OpWeights{
 		core.OpInsert: 20, core.OpInsertNew: 25, core.OpUpdate: 8, core.OpInsertSame: 2, core.OpDelete: 25, core.OpDeleteTop: 6,
-		core.OpClone: 8, core.OpPersistFail: 2, core.OpPersist: 10, core.OpReload: 8, core.OpReloadJSON: 2, core.OpDrain: 1, core.OpGet: 2,
+		core.OpClone: 8, core.OpPersistFail: 2, core.OpPersist: 10, core.OpReload: 8, core.OpReloadJSON: 2, core.OpDrain: 1, core.OpGet: 2, core.OpInsertMax: 8, core.OpInsertMin: 3,
 	}
 	prog := core.GenProgram(t, core.WithBulk(w, c.Cfg), maxOps, 4)
 	// sprinkle cursor/freeze captures
@@ -44,6 +44,32 @@ func genC02(t *rapid.T, tier string) C02Case {
 		kind := rapid.SampledFrom([]string{opCursor, opFreeze}).Draw(t, "capturekind")
 		op := core.Op{Kind: kind, Slot: rapid.IntRange(0, 3).Draw(t, "captureslot")}
 		prog = append(prog[:pos], append([]core.Op{op}, prog[pos:]...)...)
+	}
+	// motifs: a version is extended at one of its ends, captured (clone, cursor or frozen clone) right away, and the capture
+	// or the original is extended at the same end as its very next change
+	nm := rapid.IntRange(0, 2).Draw(t, "nmotifs")
+	for i := 0; i < nm; i++ {
+		pos := rapid.IntRange(0, len(prog)).Draw(t, "motifpos")
+		s1 := rapid.IntRange(0, 3).Draw(t, "motifslot")
+		s2 := (s1 + 1 + rapid.IntRange(0, 2).Draw(t, "motifdst")) % 4
+		end := rapid.SampledFrom([]string{core.OpInsertMax, core.OpInsertMax, core.OpInsertMin}).Draw(t, "motifend")
+		capture := core.Op{Kind: core.OpClone, Slot: s1, Dst: s2}
+		who := s2 // who is extended after the capture
+		switch rapid.IntRange(0, 3).Draw(t, "motifcapture") {
+		case 0:
+			capture = core.Op{Kind: opCursor, Slot: s1}
+			who = s1
+		case 1:
+			capture = core.Op{Kind: opFreeze, Slot: s1}
+			who = s1
+		}
+		room := core.OpDeleteMax
+		if end == core.OpInsertMin {
+			room = core.OpDeleteMin
+		}
+		motif := []core.Op{{Kind: room, Slot: s1}, {Kind: room, Slot: s1}, {Kind: room, Slot: s1}, {Kind: room, Slot: s1}, {Kind: room, Slot: s1},
+			{Kind: end, Slot: s1, K: 0, V: 1}, {Kind: end, Slot: s1, K: 0, V: 2}, capture, {Kind: end, Slot: who, K: 0, V: 3}, {Kind: end, Slot: who, K: 0, V: 4}}
+		prog = append(prog[:pos], append(motif, prog[pos:]...)...)
 	}
 	c.Prog = prog
 	return c
@@ -194,7 +220,11 @@ func runC02(c C02Case, o *run.Obs) error {
 			if errors.Is(err, core.ErrSkipped) {
 				continue
 			}
-			// the operated tree itself misbehaved: that is map semantics (C01), not this property
+			// the operated tree itself misbehaved: that is map semantics (C01), not this property - unless the same
+			// operation also changed a version that was captured before it, which is exactly this property
+			if cerr := checkCaptured(step, op, si); cerr != nil {
+				return fmt.Errorf("[%s] %w", c.Cfg, cerr)
+			}
 			o.Label("aborted:base-failure")
 			return nil
 		}
